@@ -1,5 +1,6 @@
 import Rain.CacheKeys
 import Rain.Lemmas.CacheKeys
+import Rain.Props.Lru
 /-
 C01 / C13 (a read is served the block of the table it asked): block-cache keys of different opened
 tables never coincide, however many database instances share the block cache and however often
@@ -49,6 +50,35 @@ offset 0 of file 9 hits the cached block 0 of file 5. -/
 theorem C01_per_instance_ids_collide :
     let s := [Step.openTable 1 5, Step.openTable 2 9].foldl stepPerInstance (fun _ => 0, [])
     s.2.map (fun t => key t 0) = [(1, 0), (1, 0)] := by decide
+
+/-- **A cached block handed to a table is that table's block** (C01 / C13 through the block cache).
+Tables are opened by any instances on a fresh block cache (`steps`); the cache is used under keys
+`enc (partition id, offset)` for an injective `enc` (`From<&BlockCacheKey> for Vec<u8>`: two fixed
+8-byte fields); every value ever inserted is the block `block inst file offset` of the table whose
+key it is inserted under (what `Table::get_block_reader` does on a miss).  Then whatever a hit
+returns to table `b` asking for offset `o` is `b`'s own block at `o` - never a block of another
+file, another instance or another offset, for every cache capacity and every history. -/
+theorem C01_cached_block_is_the_asking_tables_block (steps : List Step) (enc : Nat × Nat → Nat)
+    (henc : ∀ x y, enc x = enc y → x = y) (block : Nat → Nat → Nat → Nat) (cap : Nat)
+    (hist : List Rain.Lru.Op)
+    (hins : ∀ k v, Rain.Lru.Op.insert k v ∈ hist →
+      ∃ (i : Nat) (a : Opened) (o : Nat), (run ({ lastId := 0 }, []) steps).2[i]? = some a ∧ k = enc (key a o) ∧
+        v = block a.inst a.file o)
+    (j : Nat) (b : Opened) (o : Nat) (hb : (run ({ lastId := 0 }, []) steps).2[j]? = some b) (v : Nat)
+    (hhit : (Rain.Lru.step (Rain.Lru.run (Rain.Lru.empty cap) hist).1 (.get (enc (key b o)))).2 = some v) :
+    v = block b.inst b.file o := by
+  have hmem := Rain.Lru.cache_hit_was_inserted_under_its_key cap hist _ v hhit
+  obtain ⟨i, a, o', ha, hk, hv⟩ := hins _ _ hmem
+  have hkey : key b o = key a o' := henc _ _ hk
+  by_cases hij : i = j
+  · subst hij
+    rw [ha] at hb
+    have : a = b := Option.some.inj hb
+    subst this
+    have : o = o' := by simp [key] at hkey; exact hkey
+    subst this
+    exact hv
+  · exact absurd hkey.symm (C01_block_cache_keys_never_collide steps i j a b ha hb hij o' o)
 
 /-! ### non-vacuity -/
 example : (run ({ lastId := 0 }, []) [.openTable 1 5, .takeId, .openTable 2 9, .openTable 1 5]).2.map Opened.id
